@@ -39,7 +39,7 @@ fn path_of(ctx: &Context<'_>) -> J {
     }
 }
 
-pub const ALL_FIELD_NAMES: &[&str] = &["id", "label", "peer", "n", "nn", "f", "fnn", "e", "self", "selfNN", "kids", "kidsNN", "opt", "u", "fail", "guarded", "arg", "b", "a", "ann", "node", "nodes", "us", "bump", "bumpA", "entity"];
+pub const ALL_FIELD_NAMES: &[&str] = &["id", "label", "peer", "n", "nn", "f", "fnn", "e", "self", "selfNN", "kids", "kidsNN", "opt", "u", "fail", "guarded", "arg", "b", "a", "ann", "node", "nodes", "us", "bump", "bumpA", "entity", "ints", "grid", "colors"];
 
 pub fn views(ctx: &Context<'_>) -> J {
     // selection-field view: names (with aliases) of the direct sub-fields, fragments followed
@@ -90,6 +90,7 @@ impl FromW for bool { fn from_w(w: &J) -> Result<Self> { if is_err(w) { return E
 impl FromW for Color { fn from_w(w: &J) -> Result<Self> { if is_err(w) { return Err("boom".into()); } match w["v"].as_str() { Some("RED") => Ok(Color::Red), Some("GREEN") => Ok(Color::Green), _ => Err(Error::new("harness: bad enum")) } } }
 impl FromW for A { fn from_w(w: &J) -> Result<Self> { if is_err(w) { return Err("boom".into()); } w["id"].as_str().map(|s| A(s.to_string())).ok_or_else(|| Error::new("harness: bad ref")) } }
 impl FromW for B { fn from_w(w: &J) -> Result<Self> { if is_err(w) { return Err("boom".into()); } w["id"].as_str().map(|s| B(s.to_string())).ok_or_else(|| Error::new("harness: bad ref")) } }
+impl<T: FromW> FromW for Vec<Option<Result<T>>> { fn from_w(w: &J) -> Result<Self> { list_opt(w) } }
 fn ref_type(w: &J) -> &str { w["ty"].as_str().unwrap_or("") }
 impl FromW for Node { fn from_w(w: &J) -> Result<Self> { if is_err(w) { return Err("boom".into()); } match ref_type(w) { "A" => Ok(Node::Entity(Entity::A(A::from_w(w)?))), "B" => Ok(Node::Entity(Entity::B(B::from_w(w)?))), _ => Err(Error::new("harness: bad node ref")) } } }
 impl FromW for Entity { fn from_w(w: &J) -> Result<Self> { if is_err(w) { return Err("boom".into()); } match ref_type(w) { "A" => Ok(Entity::A(A::from_w(w)?)), "B" => Ok(Entity::B(B::from_w(w)?)), _ => Err(Error::new("harness: bad entity ref")) } } }
@@ -143,6 +144,10 @@ impl A {
     async fn kids_nn(&self, ctx: &Context<'_>) -> Result<Vec<Result<Node>>> { list_nn(&resolve(ctx, &self.0, "kidsNN").await) }
     async fn opt(&self, ctx: &Context<'_>) -> Option<Result<Vec<Option<Result<A>>>>> { opt_list_opt(&resolve(ctx, &self.0, "opt").await) }
     async fn u(&self, ctx: &Context<'_>) -> Option<Result<U>> { opt(&resolve(ctx, &self.0, "u").await) }
+    /// leaf list [Int!] and nested list [[Int]!]
+    async fn ints(&self, ctx: &Context<'_>) -> Option<Result<Vec<Result<i32>>>> { opt_list_nn(&resolve(ctx, &self.0, "ints").await) }
+    async fn grid(&self, ctx: &Context<'_>) -> Option<Result<Vec<Result<Vec<Option<Result<i32>>>>>>> { opt_list_nn(&resolve(ctx, &self.0, "grid").await) }
+    async fn colors(&self, ctx: &Context<'_>) -> Result<Vec<Option<Result<Color>>>> { list_opt(&resolve(ctx, &self.0, "colors").await) }
     /// nullable field written as Result<Option<T>> (error raised before Option can capture it)
     async fn fail(&self, ctx: &Context<'_>) -> Result<Option<i32>> {
         let w = resolve(ctx, &self.0, "fail").await;
